@@ -3,7 +3,10 @@
 (* Token introspection of vgi-rpc-go (vgirpc/introspect_token.go):         *)
 (*   POST {prefix}/__introspect_token__   ->  handleIntrospectToken        *)
 (*                                                                         *)
-(* One action per exit of the handler, taken in the order the code checks: *)
+(* One action per exit of the handler; the exits are guarded so that they  *)
+(* are taken in the order the code checks (each guard negates the earlier  *)
+(* ones; guards are written before effects only because TLC evaluates      *)
+(* conjuncts left to right):                                               *)
 (*   NotEnabled_404 -> AuthReject -> NotIntrospector_403 ->                *)
 (*   RateLimited_429 -> ContentLengthOverCap_404 -> BodyReadFails_404 ->   *)
 (*   BodyOverCap_404 -> BadJSON_404 -> NoToken_404 -> TokenOversized_404   *)
@@ -87,7 +90,7 @@ AuthStatus(kind) == CASE kind = "reject401" -> 401
 (*       "null" | "trailing" (object followed by junk)                     *)
 (*  fld  how the token member is written in an "obj":                      *)
 (*       "plain" | "absent" | "null" | "nested" | "number" | "emptystr" |  *)
-(*       "upper" (key TOKEN) | "escaped" (dots as .) |                *)
+(*       "upper" (key TOKEN) | "escaped" (dots as backslash-u002e) |                *)
 (*       "dup" (two token members; the LAST one is the one in segs)        *)
 (*  segs the decoded token as dot-separated segments:                      *)
 (*       "u" non-empty base64url, "e" empty, "p" base64url with '=' pad,   *)
@@ -206,8 +209,10 @@ LogAuth(kind) == CASE kind = "reject401" -> <<>>
                    [] kind = "reject500" -> <<L("ERROR", {"err", "remote_addr"})>>
 
 --------------------------------------------------------------------------
+\* In "mc" mode only the last step is kept (the properties read nothing older; the
+\* history they need is in the ghosts reach/adm), which keeps states small.
 Record(step) ==
-    /\ hist' = Append(hist, step)
+    /\ hist' = IF Mode = "mc" THEN <<step>> ELSE Append(hist, step)
     /\ (Mode = "edges" /\ step.a # "Tick") => EmitTrace(hist')
     /\ (Mode = "tree" /\ Len(hist') = Depth) => EmitTrace(hist')
 
@@ -268,11 +273,13 @@ RateLimited_429(c, k) ==
                         logs |-> LogRateLimited, fields |-> {"error"}]])
 
 \* common part of every exit after the limiter admitted the request
-Admitted(c) ==
+\* (guards first, then the effect: TLC evaluates conjuncts left to right)
+AdmitGuard(c) ==
     /\ Budget
     /\ enabled
     /\ Introspector(c)
     /\ Limiter(c).ok
+AdmitEffect(c) ==
     /\ lim' = Limiter(c).lim
     /\ reach' = reach \cup {now}
     /\ adm' = [adm EXCEPT ![Eff(c).prin][now] = @ + 1]
@@ -285,51 +292,59 @@ Unresolved(name, c, k, o, read, ran, logs) ==
                      logs |-> logs, fields |-> {"error"}]])
 
 ContentLengthOverCap_404(c, k) ==
-    /\ Admitted(c)
     /\ DeclaredOverCap(CredAttr[k])
+    /\ AdmitGuard(c)
+    /\ AdmitEffect(c)
     /\ Unresolved("ContentLengthOverCap_404", c, k, "none", FALSE, 0, <<>>)
 
 BodyReadFails_404(c, k) ==
-    /\ Admitted(c)
     /\ LET b == CredAttr[k] IN ~DeclaredOverCap(b) /\ ReadFails(b)
+    /\ AdmitGuard(c)
+    /\ AdmitEffect(c)
     /\ Unresolved("BodyReadFails_404", c, k, "none", TRUE, 0, <<>>)
 
 BodyOverCap_404(c, k) ==
-    /\ Admitted(c)
     /\ LET b == CredAttr[k] IN ~DeclaredOverCap(b) /\ ~ReadFails(b) /\ DeliveredOverCap(b)
+    /\ AdmitGuard(c)
+    /\ AdmitEffect(c)
     /\ Unresolved("BodyOverCap_404", c, k, "none", TRUE, 0, <<>>)
 
 Readable(b) == ~DeclaredOverCap(b) /\ ~ReadFails(b) /\ ~DeliveredOverCap(b)
 
 BadJSON_404(c, k) ==
-    /\ Admitted(c)
     /\ LET b == CredAttr[k] IN Readable(b) /\ ParseFails(b)
+    /\ AdmitGuard(c)
+    /\ AdmitEffect(c)
     /\ Unresolved("BadJSON_404", c, k, "none", TRUE, 0, <<>>)
 
 NoToken_404(c, k) ==
-    /\ Admitted(c)
     /\ LET b == CredAttr[k] IN Readable(b) /\ ~ParseFails(b) /\ TokenEmpty(b)
+    /\ AdmitGuard(c)
+    /\ AdmitEffect(c)
     /\ Unresolved("NoToken_404", c, k, "none", TRUE, 0, <<>>)
 
 TokenOversized_404(c, k) ==
-    /\ Admitted(c)
     /\ LET b == CredAttr[k] IN
           Readable(b) /\ ~ParseFails(b) /\ ~TokenEmpty(b) /\ TokenOversized(b)
+    /\ AdmitGuard(c)
+    /\ AdmitEffect(c)
     /\ Unresolved("TokenOversized_404", c, k, "none", TRUE, 0, <<>>)
 
 HasCredential(b) == Readable(b) /\ ~ParseFails(b) /\ ~TokenEmpty(b) /\ ~TokenOversized(b)
 
 JWS_404(c, k) ==
-    /\ Admitted(c)
     /\ LET b == CredAttr[k] IN HasCredential(b) /\ JWSShaped(b.segs)
+    /\ AdmitGuard(c)
+    /\ AdmitEffect(c)
     /\ Unresolved("JWS_404", c, k, "none", TRUE, 0, LogJWS)
 
 ReachesResolver(b) == HasCredential(b) /\ ~JWSShaped(b.segs)
 
 Resolver_503(c, k, o) ==
-    /\ Admitted(c)
     /\ ReachesResolver(CredAttr[k])
     /\ OutcomeAttr[o].err # "none"
+    /\ AdmitGuard(c)
+    /\ AdmitEffect(c)
     /\ Record([a |-> "Resolver_503", args |-> ReqArgs(c, k, o),
                exp |-> [limited |-> FALSE, code |-> 503, body_x |-> "unavailable",
                         retry_after |-> ToString(RetryOf(OutcomeAttr[o])), read_x |-> TRUE,
@@ -337,15 +352,17 @@ Resolver_503(c, k, o) ==
                         logs |-> LogUnavailable, fields |-> {"error"}]])
 
 Resolver_404(c, k, o) ==
-    /\ Admitted(c)
     /\ ReachesResolver(CredAttr[k])
     /\ OutcomeAttr[o].err = "none" /\ ~OutcomeAttr[o].ok
+    /\ AdmitGuard(c)
+    /\ AdmitEffect(c)
     /\ Unresolved("Resolver_404", c, k, o, TRUE, 1, LogUnresolved)
 
 Resolver_200(c, k, o) ==
-    /\ Admitted(c)
     /\ ReachesResolver(CredAttr[k])
     /\ OutcomeAttr[o].err = "none" /\ OutcomeAttr[o].ok
+    /\ AdmitGuard(c)
+    /\ AdmitEffect(c)
     /\ Record([a |-> "Resolver_200", args |-> ReqArgs(c, k, o),
                exp |-> [limited |-> FALSE, code |-> 200, body_x |-> "ok",
                         ok_body |-> [principal |-> "subject", token_name |-> "name",
@@ -508,9 +525,9 @@ RejectedUnread ==
 \* (4) every admitted request whose credential does not resolve gets THE 404 body
 Unresolvable404 ==
     [][ (IsReq(Last) /\ enabled /\ MayIntrospect(Last.args.caller)
-            /\ WithinRate(Eff(Last.args.caller).prin)
             /\ (~Resolvable(Body(Last))
-                \/ (OutcomeAttr[Last.args.outcome].err = "none" /\ ~OutcomeAttr[Last.args.outcome].ok))) =>
+                \/ (OutcomeAttr[Last.args.outcome].err = "none" /\ ~OutcomeAttr[Last.args.outcome].ok))
+            /\ WithinRate(Eff(Last.args.caller).prin)) =>
           /\ Has(Last, "status") /\ Last.exp.status = 404
           /\ Has(Last, "body") /\ Last.exp.body = "ref404"
           /\ (~Resolvable(Body(Last)) => Last.exp.resolver = 0) ]_vars
@@ -532,7 +549,7 @@ NoLeak ==
 \* resolver -- keeps ResolverOnlyWhen from being satisfied by a handler that never resolves
 ResolvesWhenEntitled ==
     [][ (IsReq(Last) /\ enabled /\ MayIntrospect(Last.args.caller)
-            /\ WithinRate(Eff(Last.args.caller).prin) /\ Resolvable(Body(Last))) => Ran(Last) ]_vars
+            /\ Resolvable(Body(Last)) /\ WithinRate(Eff(Last.args.caller).prin)) => Ran(Last) ]_vars
 
 ViewMC  == <<enabled, authfn, now, lim, reach, adm>>
 ViewGen == <<enabled, authfn, now, lim>>
